@@ -9,3 +9,6 @@ import SkyllhModel.Props.C06
 import SkyllhModel.Props.C13
 import SkyllhModel.Props.C09
 import SkyllhModel.Props.C04
+import SkyllhModel.Props.C10
+import SkyllhModel.Props.C19
+import SkyllhModel.Props.C05
